@@ -196,7 +196,7 @@ class C16(Check):
             'errors': st.sampled_from(['none', 'none', 'own', 'shared', 'shared']), 'error_names': st.lists(st.sampled_from(ERROR_NAMES), min_size=1, max_size=3, unique=True),
             'tags': st.lists(st.sampled_from(['t1', 't2', 'admin']), max_size=2, unique=True), 'examples': st.integers(0, 2), 'summary': s_rare, 'description': s_rare,
             'deprecated': st.sampled_from([None, None, True, False]), 'servers': s_rare, 'security': s_rare, 'external_docs': s_rare,
-            'params_schema': s_rare, 'result_schema': s_rare, 'prefix': st.sampled_from([None, None, None, 'P1', 'Pfx2']),
+            'params_schema': s_rare, 'result_schema': s_rare, 'prefix': st.sampled_from([None, None, None, None, None, 'P1', 'Pfx2', 'Json', 'J', 'M', 'Model', 'Custom']),   # some are leading substrings of component names
         })
         s_method = st.fixed_dictionaries({
             'params': st.lists(s_param, max_size=3), 'ret': s_ret, 'doc': s_doc, 'ctx': s_rare, 'flavour': st.sampled_from(['func', 'func', 'view']),
